@@ -49,18 +49,22 @@ var fns = []Fn{
 	{"infixTest", "func mytestX() bool {\n\treturn true\n}\n", ""},
 	{"decoyIndentComment", "/*\n\tfunc testIndentedInComment() bool {\n\t\treturn true\n\t}\n*/\n", ""},
 	{"decoyIndentRaw", "var doc2 = `\n    func testIndentedInRaw() bool {\n`\n", ""},
+	{"testParam", "func testParam(x uint64) bool {\n\treturn x == 0\n}\n", "testParam"},
+	{"testGeneric", "func testGeneric[T comparable](a T, b T) bool {\n\treturn a == b\n}\n", ""}, // cannot be called without instantiation: not a test
+	{"testOtherResult", "func testOtherResult() uint64 {\n\treturn 1\n}\n", "testOtherResult"},
 	{"testLong", "func testWith2Words() bool {\n\treturn helper2()\n}\n\nfunc helper2() bool {\n\treturn true\n}\n", "testWith2Words"},
 }
 
 type Dir struct {
-	F1    []int  `json:"f1"` // indices into fns for a.go
-	F2    []int  `json:"f2"` // for b.go (nil = no second file)
-	Extra string `json:"extra"`
-	Name1 string `json:"name1"` // name of the first source file ("" = a.go)
+	F1     []int  `json:"f1"` // indices into fns for a.go
+	F2     []int  `json:"f2"` // for b.go (nil = no second file)
+	Extra  string `json:"extra"`
+	Name1  string `json:"name1"`            // name of the first source file ("" = a.go)
+	Parent string `json:"parent,omitempty"` // name of the directory's parent (characters that mean something to globbing or shells)
 }
 
 // source file names that share a prefix or suffix with the names the generators filter on
-var fileNames = []string{"latest.go", "a.gold.go", "gold.v.go", "test_util.go", "a_testing.go", "a~b.go"}
+var fileNames = []string{"latest.go", "a.gold.go", "gold.v.go", "test_util.go", "a_testing.go", "a~b.go", "Zeta.go", "B.go", "_a.go", "0.go"}
 
 func (d Dir) ID() string {
 	n := func(x []int) string {
@@ -69,6 +73,9 @@ func (d Dir) ID() string {
 			s = append(s, fns[i].ID)
 		}
 		return strings.Join(s, "+")
+	}
+	if d.Parent != "" {
+		return fmt.Sprintf("in(%s)a[%s]b[%s]extra=%s", d.Parent, n(d.F1), n(d.F2), d.Extra)
 	}
 	if d.Name1 != "" {
 		return fmt.Sprintf("%s[%s]b[%s]extra=%s", d.Name1, n(d.F1), n(d.F2), d.Extra)
@@ -141,7 +148,7 @@ func expected(dir string) ([]T, error) {
 		}
 		for _, dcl := range f.Decls {
 			fd, ok := dcl.(*ast.FuncDecl)
-			if !ok || fd.Recv != nil {
+			if !ok || fd.Recv != nil || fd.Type.TypeParams != nil {
 				continue
 			}
 			name := fd.Name.Name
@@ -262,6 +269,10 @@ type result struct {
 }
 
 func runDir(bin, root string, d Dir) result {
+	if d.Parent != "" {
+		root = filepath.Join(root, d.Parent)
+		os.MkdirAll(root, 0755)
+	}
 	dir, err := os.MkdirTemp(root, "d")
 	if err != nil {
 		panic(err)
@@ -392,6 +403,9 @@ func dirs(tier string) []Dir {
 			out = append(out, Dir{F1: a, F2: []int{(a[0] + 1) % len(fns)}, Extra: "none", Name1: fn})
 		}
 	}
+	for _, par := range []string{"w[1]", "a*b", "q?x", "sp ace", "{a,b}", "back\\slash"} {
+		out = append(out, Dir{F1: []int{0}, Extra: "none", Parent: par}, Dir{F1: []int{1}, F2: []int{0}, Extra: "none", Parent: par})
+	}
 	for _, a := range s1 {
 		for _, ex := range extras {
 			out = append(out, Dir{F1: a, Extra: ex})
@@ -459,6 +473,8 @@ func compileBatch(root string, items map[string]Dir, srcs map[string]string, acc
 		kind := "go-does-not-compile"
 		if strings.Contains(l, "imported and not used") {
 			kind += "(unused-import)"
+		} else if m := regexp.MustCompile(`not enough arguments in call to (\w+)`).FindStringSubmatch(l); m != nil {
+			kind += "(not-enough-arguments:" + m[1] + ")"
 		}
 		acc.Violate(ev.Violation{Key: "C18/" + d.ID() + "/" + kind, Msg: fmt.Sprintf("directory %s: generated Go test file does not compile against the package: %s", d.ID(), strings.TrimSpace(l)), Replay: d})
 	}
@@ -562,7 +578,7 @@ func main() {
 	os.RemoveAll(root)
 	os.Exit(acc.Done(ev.Finish{
 		Prop: "C18", Tier: *tier, Level: "exploration", Start: start,
-		Rule:        "all package directories with a.go holding every sequence of <=2 (thorough <=3) distinct items of a 17-item function-header alphabet (plain, failing_, disabled_, helper, method, digit suffix, capital T, underscore and non-ASCII suffix, failing_ twin of a plain test, failing_ and test as infixes, column-0 and indented decoys inside a block comment and a raw string, multi-word), the first file also under 6 names that share a prefix or suffix with filtered names (latest.go, a.gold.go, gold.v.go, test_util.go, a_testing.go, a~b.go); optionally b.go with <=1 (thorough <=2) further items, x one extra entry {none, x_test.go, x.gold.v, x.go~, sub-directory, README.md, zz.txt} each holding a decoy header, or a .go file that is a symbolic link to a file elsewhere (a real source file of the package); the real test_gen binary run in -coq and -go mode; reference = go/parser over the non-test .go files in name order; oracles: Coq list == Go list == reference (order and Fail marking), method names unique, distinct generated Go files compiled against their package with go vet; evaluations = test_gen runs; non-trivial = directory with at least one test function",
+		Rule:        "all package directories with a.go holding every sequence of <=2 (thorough <=3) distinct items of a 20-item function-header alphabet (functions named test… with a parameter, type parameters, another result type, plain, failing_, disabled_, helper, method, digit suffix, capital T, underscore and non-ASCII suffix, failing_ twin of a plain test, failing_ and test as infixes, column-0 and indented decoys inside a block comment and a raw string, multi-word), the first file also under 6 names that share a prefix or suffix with filtered names (latest.go, a.gold.go, gold.v.go, test_util.go, a_testing.go, a~b.go, Zeta.go, B.go, _a.go, 0.go), directories under parents named w[1], a*b, q?x, 'sp ace', {a,b}, back\\slash; optionally b.go with <=1 (thorough <=2) further items, x one extra entry {none, x_test.go, x.gold.v, x.go~, sub-directory, README.md, zz.txt} each holding a decoy header, or a .go file that is a symbolic link to a file elsewhere (a real source file of the package); the real test_gen binary run in -coq and -go mode; reference = go/parser over the non-test .go files in name order; oracles: Coq list == Go list == reference (order and Fail marking), method names unique, distinct generated Go files compiled against their package with go vet; evaluations = test_gen runs; non-trivial = directory with at least one test function",
 		Assumptions: []string{"a semantics package is gofmt-formatted and its test…/failing_test… functions have signature func() bool", "functions named exactly `test` are outside the alphabet"},
 		Extra:       map[string]any{"distinct_nontrivial": len(acc.Sets["nontrivial"])},
 	}))
